@@ -96,22 +96,22 @@ theorem sci_has_md_plus_one_digits (fm : Fm) (neg : Bool) (n d : Nat) (hn : 0 < 
       10 ^ maxDigits10 fm ≤ m ∧ m < 10 ^ (maxDigits10 fm + 1) :=
   sciSel_digits neg _ n d hn hd
 
-/-- **C15 (digit count, fixed notation) — partial.** In the band printed with `prec` decimals the
-digits printed form an integer `≥ 10^max_digits10` (at least `max_digits10 + 1` significant digits),
-and `< 10^(max_digits10+1)` (exactly that many) provided the value is more than half a unit of the
-last decimal below the next power of ten.
+/-- **C15 (digit count, fixed notation).** For every normal number `x = ±m·2^q` of each of the three
+formats that the cascade prints in fixed notation (with `prec` decimals), the digits printed form an
+integer in `[10^md, 10^(md+1))`: exactly `max_digits10 + 1` significant digits.
 
-What is missing for the full statement: that every *representable* value of the format in a band
-satisfies the proviso. It does for `float` and `double`; for `long double` it does **not** —
-the thresholds `0.001`, `0.01`, `0.1` are `double` literals, slightly above the decimal values, and the
-`long double`s between `10^-k` and `(double)10^-k` are printed with one digit too many (known finding
-`C15-long-double-bands`, reproduced on the real code by the check). -/
-theorem fixed_digits_partial (fm : Fm) (a : Nat × Nat) (ha2 : 0 < a.2) (prec : Nat)
+The lower bound is the band's lower threshold (`bandPrec_lower`); the upper bound needs that the
+largest number of the format below the band's upper threshold still prints that many digits — a fact
+about the spacing of the format (`Fl.canonical_gap`) evaluated by the kernel for each of the
+3 formats × 7 bands (`all_band_tops_ok`). With the `double` thresholds the library had before commit
+5125562 this theorem is false for `long double` (`findings/C15-long-double-bands-*.json`). -/
+theorem fixed_has_md_plus_one_digits (fm : Fm) (s : Bool) (m : Nat) (q : Int)
+    (hx : Fl.Canonical fm.fmt (Fl.fin s m q)) (a : Nat × Nat) (ha2 : 0 < a.2)
+    (hax : (a.1 : ℝ) / a.2 = (m : ℝ) * (2 : ℝ) ^ q) (prec : Nat)
     (h : bandPrec (maxDigits10 fm) a = some prec) (neg : Bool) :
     ∃ sc, fixedSel neg prec a.1 a.2 = .fixed neg sc prec ∧ 10 ^ maxDigits10 fm ≤ sc ∧
-      ((a.1 : ℝ) / a.2 * (10 : ℝ) ^ prec + 1 / 2 < (10 : ℝ) ^ (maxDigits10 fm + 1) →
-        sc < 10 ^ (maxDigits10 fm + 1)) :=
-  fixedSel_digits _ (maxDigits10_ok fm).1 a ha2 prec h neg
+      sc < 10 ^ (maxDigits10 fm + 1) :=
+  fixedSel_exact_digits fm s m q hx a ha2 hax prec h neg
 
 /-! ### Composite forms -/
 
